@@ -2,9 +2,9 @@ package props
 
 import (
 	"fmt"
-	"sync"
 	"sort"
 	"strings"
+	"sync"
 
 	"github.com/elliotchance/gedcom/v39"
 
